@@ -141,6 +141,10 @@ class Encrypt(Machine):
                           "entry": s.choice(["cli", "cli", "lib", "lib_reuse", "main", "kms"]),
                           "ctx": s.choice(["path", "json"]), "stale": s.chance(0.3), "kd": 1 if s.chance(0.3) else 0}
                 last_enc = op
+                if s.chance(0.1):
+                    # the same call for a key that is not there (renamed, not yet provisioned): a persistent failure,
+                    # unlike an injected fault - must be refused, whatever the process encrypted before
+                    op = dict(op, nokey=True)
             elif r < 0.67:
                 op = {"kind": "geninfo", "i": i, "fw": s.choice(fws)[0], "key": s.choice(keys),
                       "kid": s.choice(KIDS), "kw": s.choice(["direct", "direct", "aes-kw-256"]),
@@ -340,6 +344,8 @@ class Encrypt(Machine):
         return kd if op.get("ctx", "path") == "path" else json.dumps({"keys_directory": kd})
 
     def _run_enc(self, host, model, op, faults):
+        if op.get("nokey") and not op["key"].endswith("-gone"):
+            op = dict(op, key=op["key"] + "-gone")
         fw_path = host.path(op["fw"] + ".bin")
         ctx = self._context(host, op)
         entry = op["entry"]
@@ -423,6 +429,16 @@ class Encrypt(Machine):
                 ex["valid_ops"] += 1
                 faulted = False
                 model["_nontrivial"] = True
+        if op.get("nokey"):
+            ex["missing_key_calls"] = ex.get("missing_key_calls", 0) + 1
+            ex["valid_ops"] -= 0 if faulted else 1
+            model["dirs"][op["out"]] = None
+            model["_abstract"] = ("enc-nokey", op["entry"], o.cls)
+            if o.ok:
+                return [violation(prop, "missing-key-refused", op["i"],
+                                  f"encrypt-and-generate ({op['entry']}) reported success for key {op['key']}-gone, which does not "
+                                  f"exist: whatever it published was not made for this firmware with the named key")]
+            return []
         if not o.ok:
             if not faulted:
                 vs.append(violation(prop, "valid-operation-failed", op["i"],
